@@ -1,3 +1,227 @@
-(* C16 property theorems: ONLY statements closed by `exact`, each followed by Print Assumptions. *)
+(* C16 property theorems: ONLY statements closed by `exact`, each followed by Print Assumptions.
+   Reading guide: c16_iter_laws o rep lo hi (C16_Spec.v) says that on the iterators rep lo .. rep hi every operator of
+   the table o (== != < <= > >= - ++ -- + += - -= [] * ) is integer arithmetic on positions. *)
 From Coq Require Import List ZArith Bool.
-From DuneV Require Import C16_Model C16_Spec.
+From DuneV Require Import C16_Model C16_Spec C16_Proofs C16_Proofs_Ranges.
+Import ListNotations.
+Local Open Scope Z_scope.
+
+(* Forward/Bidirectional/RandomAccessIteratorFacade: for ANY derived class whose primitives obey the primitive laws,
+   and for both instantiations of the interoperable operators (conv = is_convertible<T2,T1>, i.e. every const/mutable mix) *)
+Theorem C16_facade_laws :
+  forall (P V : Type) (pr : c16_prims P V) (rep : Z -> P) (lo hi : Z),
+    c16_prim_laws pr rep lo hi -> forall conv : bool, c16_iter_laws (c16_legacy_ops pr conv) rep lo hi.
+Proof. exact c16_legacy_facade_laws. Qed.
+Print Assumptions C16_facade_laws.
+
+(* IteratorFacade (new): everything forwarded to baseIterator() *)
+Theorem C16_new_facade_laws :
+  forall (B V W : Type) (bs : c16_base B V) (star : B -> W) (rep : Z -> B) (lo hi : Z),
+    c16_base_laws bs rep lo hi -> c16_iter_laws (c16_nf_ops bs star) rep lo hi.
+Proof. exact c16_new_facade_laws. Qed.
+Print Assumptions C16_new_facade_laws.
+
+(* what the laws give: ++/-- inverse; it+n = it+=n = it-(-n) = n single steps of either sign; it[n] = *(it+n); (it+n)-it = n *)
+Theorem C16_laws_steps :
+  forall (P V : Type) (o : c16_ops P V) (rep : Z -> P) (lo hi : Z), c16_iter_laws o rep lo hi ->
+  forall a n, c16_in lo hi a -> c16_in lo hi (a + n) ->
+      c16_o_plus o (rep a) n = c16_steps o (rep a) n /\
+      c16_o_pluseq o (rep a) n = c16_steps o (rep a) n /\
+      c16_o_minus o (rep a) (- n) = c16_steps o (rep a) n /\
+      c16_o_minuseq o (rep a) (- n) = c16_steps o (rep a) n /\
+      c16_o_index o (rep a) n = c16_o_star o (c16_o_plus o (rep a) n) /\
+      c16_o_diff o (c16_o_plus o (rep a) n) (rep a) = n.
+Proof. exact @c16_plus_is_steps. Qed.
+Print Assumptions C16_laws_steps.
+
+Theorem C16_laws_inc_dec_inverse :
+  forall (P V : Type) (o : c16_ops P V) (rep : Z -> P) (lo hi : Z), c16_iter_laws o rep lo hi ->
+  forall a, c16_in lo hi a ->
+      (c16_in lo hi (a + 1) -> c16_o_dec o (c16_o_inc o (rep a)) = rep a) /\
+      (c16_in lo hi (a - 1) -> c16_o_inc o (c16_o_dec o (rep a)) = rep a).
+Proof. exact @c16_inc_dec_inverse. Qed.
+Print Assumptions C16_laws_inc_dec_inverse.
+
+(* the six comparisons are a strict total order consistent with ==, != and - ; == iff same position *)
+Theorem C16_laws_strict_order :
+  forall (P V : Type) (o : c16_ops P V) (rep : Z -> P) (lo hi : Z), c16_iter_laws o rep lo hi ->
+  forall a b c, c16_in lo hi a -> c16_in lo hi b -> c16_in lo hi c ->
+      let lt := c16_o_lt o in let eq := c16_o_eq o in let gt := c16_o_gt o in
+      lt (rep a) (rep a) = false /\
+      (lt (rep a) (rep b) = true -> lt (rep b) (rep c) = true -> lt (rep a) (rep c) = true) /\
+      (lt (rep a) (rep b) = true -> lt (rep b) (rep a) = false) /\
+      ((lt (rep a) (rep b) = true /\ eq (rep a) (rep b) = false /\ gt (rep a) (rep b) = false) \/
+       (lt (rep a) (rep b) = false /\ eq (rep a) (rep b) = true /\ gt (rep a) (rep b) = false) \/
+       (lt (rep a) (rep b) = false /\ eq (rep a) (rep b) = false /\ gt (rep a) (rep b) = true)) /\
+      c16_o_le o (rep a) (rep b) = (lt (rep a) (rep b) || eq (rep a) (rep b)) /\
+      c16_o_ge o (rep a) (rep b) = (gt (rep a) (rep b) || eq (rep a) (rep b)) /\
+      gt (rep a) (rep b) = lt (rep b) (rep a) /\
+      c16_o_ne o (rep a) (rep b) = negb (eq (rep a) (rep b)) /\
+      (eq (rep a) (rep b) = true <-> a = b) /\
+      (eq (rep a) (rep b) = true <-> c16_o_diff o (rep a) (rep b) = 0) /\
+      (lt (rep a) (rep b) = true <-> c16_o_diff o (rep a) (rep b) < 0).
+Proof. exact @c16_order. Qed.
+Print Assumptions C16_laws_strict_order.
+
+(* instances discharge the primitive laws *)
+Theorem C16_dense_iterator :          (* size_t position, incl. the wrapped one-before-begin; |position| <= 2^61 *)
+  forall xs, c16_prim_laws (c16_dense_prims xs) c16_dense_rep (- 2 ^ 61) (2 ^ 61).
+Proof. exact c16_dense_prim_laws. Qed.
+Print Assumptions C16_dense_iterator.
+
+Theorem C16_dense_iterator_distance_representable :
+  forall xs a b, c16_in (- 2 ^ 61) (2 ^ 61) a -> c16_in (- 2 ^ 61) (2 ^ 61) b ->
+    - 2 ^ 63 <= c16_p_dist (c16_dense_prims xs) (c16_dense_rep a) (c16_dense_rep b) < 2 ^ 63.
+Proof. exact c16_dense_dist_representable. Qed.
+Print Assumptions C16_dense_iterator_distance_representable.
+
+Theorem C16_generic_iterator :
+  forall xs lo hi, c16_prim_laws (c16_generic_prims xs) (fun z => z) lo hi.
+Proof. exact c16_generic_prim_laws. Qed.
+Print Assumptions C16_generic_iterator.
+
+Theorem C16_arraylist_iterator :
+  forall start size st, c16_prim_laws (c16_alist_prims start size st) (c16_alist_rep start) (- 2 ^ 61) (2 ^ 61).
+Proof. exact c16_alist_prim_laws. Qed.
+Print Assumptions C16_arraylist_iterator.
+
+(* IntegralRangeIterator<T>, any width/signedness, after fixes/C16-1.patch *)
+Theorem C16_integral_range_iterator :
+  forall t from lo hi,
+    0 < c16_bits t -> lo <= 0 <= hi ->
+    c16_tmin t <= from + lo -> from + hi <= c16_tmax t -> hi - lo < 2 ^ (c16_bits t - 1) ->
+    c16_iter_laws (c16_ir_ops t true) (c16_ir_rep t from) lo hi.
+Proof. exact c16_ir_iter_laws. Qed.
+Print Assumptions C16_integral_range_iterator.
+
+(* ... and as written in the unfixed tree: every iterator is less than and greater than itself (F-C16-1) *)
+Theorem C16_integral_range_iterator_aswritten_refuted :
+  forall t v, c16_o_lt (c16_ir_ops t false) v v = true /\ c16_o_gt (c16_ir_ops t false) v v = true.
+Proof. exact c16_ir_aswritten_refuted. Qed.
+Print Assumptions C16_integral_range_iterator_aswritten_refuted.
+
+Theorem C16_integral_range_iterator_aswritten_laws_refuted :
+  exists t from, ~ c16_iter_laws (c16_ir_ops t false) (c16_ir_rep t from) 0 1.
+Proof. exact c16_ir_aswritten_not_strict. Qed.
+Print Assumptions C16_integral_range_iterator_aswritten_laws_refuted.
+
+(* IntegralRange<T>(from,to): range-based for yields exactly from .. to-1 (fixed or not: the loop uses != and ++ only) *)
+Theorem C16_integral_range :
+  forall t fixed from to fuel,
+    0 < c16_bits t -> c16_tmin t <= from -> from <= to -> to <= c16_tmax t -> (Z.to_nat (to - from) < fuel)%nat ->
+    c16_irange_elems t fixed fuel from to = C16Ok (map Some (c16_spec_irange from to)).
+Proof. exact c16_irange_elems_correct. Qed.
+Print Assumptions C16_integral_range.
+
+Theorem C16_integral_range_queries :     (* size, empty, operator[], contains, StaticIntegralRange::integer_sequence *)
+  forall t from to,
+    0 < c16_bits t -> c16_tmin t <= from -> from <= to -> to <= c16_tmax t ->
+    c16_irange_size t from to = to - from /\
+    (c16_irange_empty from to = true <-> c16_spec_irange from to = []) /\
+    (forall i, 0 <= i < to - from -> Some (c16_irange_at t from i) = nth_error (c16_spec_irange from to) (Z.to_nat i)) /\
+    (forall x, c16_irange_contains from to x = true <-> In x (c16_spec_irange from to)) /\
+    c16_sirange_seq t from to = c16_spec_irange from to.
+Proof. exact c16_irange_queries_correct. Qed.
+Print Assumptions C16_integral_range_queries.
+
+(* TransformedRangeView: f applied to each element once, in order; size / empty / operator[] *)
+Theorem C16_transformed :
+  forall f xs fuel, (length xs < fuel)%nat -> c16_tr_elems f xs fuel = C16Ok (map (fun x => Some (f x)) xs).
+Proof. exact c16_tr_elems_correct. Qed.
+Print Assumptions C16_transformed.
+
+Theorem C16_transformed_queries :
+  forall f xs,
+    c16_tr_size xs = Z.of_nat (length xs) /\
+    (c16_tr_empty xs = true <-> xs = []) /\
+    (forall i, (i < length xs)%nat -> c16_tr_at f xs (Z.of_nat i) = option_map f (nth_error xs i)).
+Proof. exact c16_tr_queries_correct. Qed.
+Print Assumptions C16_transformed_queries.
+
+(* sparseRange pairs entries with their indices *)
+Theorem C16_sparse :
+  forall xs fuel, (length xs < fuel)%nat -> c16_sparse_elems xs (fun p => p) fuel = C16Ok (map Some (c16_spec_sparse xs)).
+Proof. exact c16_sparse_elems_correct. Qed.
+Print Assumptions C16_sparse.
+
+(* IndexedIterator over any lawful iterator: after ANY in-range sequence of ++ -- += -=, index() moved exactly as the position did *)
+Theorem C16_indexed_iterator :
+  forall (P V : Type) (o : c16_ops P V) (rep : Z -> P) (lo hi : Z), c16_iter_laws o rep lo hi ->
+  forall l a i, c16_in lo hi a -> c16_idx_inrange lo hi a l ->
+    c16_idx_run o (rep a, i) l = (rep (a + c16_idx_total l), i + c16_idx_total l).
+Proof. exact c16_idx_run_correct. Qed.
+Print Assumptions C16_indexed_iterator.
+
+(* Hybrid::forEach / accumulate / size / elementAt: compile-time containers (index loop) = run-time containers (range-for) = fold *)
+Theorem C16_hybrid :
+  forall m xs,
+    c16_hy_log m xs = xs /\
+    (forall f v, c16_hy_accumulate m f xs v = fold_left f xs v) /\
+    c16_hy_size m xs = Z.of_nat (length xs) /\
+    (forall i, c16_hy_elementAt m xs (Z.of_nat i) = nth_error xs i) /\
+    c16_hy_log C16Static xs = c16_hy_log C16Dynamic xs /\
+    (forall f v, c16_hy_accumulate C16Static f xs v = c16_hy_accumulate C16Dynamic f xs v).
+Proof. exact c16_hy_correct. Qed.
+Print Assumptions C16_hybrid.
+
+(* Hybrid::switchCases: fold-expression variant, recursive variant and IntegralRange variant pick the branch iff the value is a case *)
+Theorem C16_hybrid_switch :
+  forall (A : Type) cases v (br : Z -> A) el,
+    c16_hy_switch_static cases v br el = c16_spec_switch cases v br el /\
+    c16_hy_switch_dynamic cases v br el = c16_spec_switch cases v br el /\
+    (forall from to, c16_hy_switch_range from to v br el = c16_spec_switch (c16_spec_irange from to) v br el) /\
+    (In v cases -> c16_spec_switch cases v br el = br v) /\ (~ In v cases -> c16_spec_switch cases v br el = el).
+Proof. exact c16_hy_switch_correct. Qed.
+Print Assumptions C16_hybrid_switch.
+
+Theorem C16_hybrid_ifelse_functors :
+  forall (A : Type) (c : bool) (a b : A) o x y m1 m2,
+    c16_hy_ifElse C16Static c a b = c16_hy_ifElse C16Dynamic c a b /\
+    c16_hy_ifElse C16Dynamic c a b = (if c then a else b) /\
+    c16_hy_fun m1 m2 o x y = c16_hy_fun C16Dynamic C16Dynamic o x y.
+Proof. exact c16_hy_ifelse_fun_correct. Qed.
+Print Assumptions C16_hybrid_ifelse_functors.
+
+(* ForwardIteratorFacade / BidirectionalIteratorFacade: == and != for every convertibility case, ++ ; SLList's three iterator kinds *)
+Theorem C16_forward_facade_laws :
+  forall (P V : Type) (pr : c16_prims P V) (rep : Z -> P) (lo hi : Z),
+    (forall a, c16_in lo hi a -> c16_in lo hi (a + 1) -> c16_p_inc pr (rep a) = rep (a + 1)) ->
+    (forall a b, c16_in lo hi a -> c16_in lo hi b -> c16_p_eq pr (rep a) (rep b) = (a =? b)) ->
+    forall conv : bool,
+      c16_fwd_laws (c16_legacy_ops pr conv) rep lo hi /\
+      (forall a b, c16_in lo hi a -> c16_in lo hi b ->
+         c16_bi_eq pr conv (rep a) (rep b) = (a =? b) /\ c16_bi_ne pr conv (rep a) (rep b) = negb (a =? b)).
+Proof. exact c16_legacy_forward_laws. Qed.
+Print Assumptions C16_forward_facade_laws.
+
+Theorem C16_sllist_iterators :
+  forall xs lo hi conv,
+    c16_fwd_laws (c16_legacy_ops (c16_sl_prims xs) conv) (fun z => z) lo hi /\
+    (forall p, c16_slmod_inc (p - 1, p) = (p + 1 - 1, p + 1)) /\
+    (forall a b, c16_slmod_eq (a - 1, a) (b - 1, b) = (a =? b)).
+Proof. exact c16_sl_forward_laws. Qed.
+Print Assumptions C16_sllist_iterators.
+
+(* ------------------------------------------------------------------ non-vacuity *)
+(* the hypotheses of C16_facade_laws are satisfiable by a real instance, and the conclusion speaks about real values:
+   one-before-begin (size_t(-1)) < position 2 for a mutable lhs and a const rhs *)
+Example C16_ex_facade_hyp : exists (pr : c16_prims Z (option Z)) rep, c16_prim_laws pr rep (-1) 3.
+Proof. exact (ex_intro _ (c16_generic_prims [10; 20; 30]) (ex_intro _ (fun z => z) (c16_generic_prim_laws [10; 20; 30] (-1) 3))). Qed.
+Example C16_ex_dense_before_begin :
+  c16_o_lt (c16_legacy_ops (c16_dense_prims [10; 20; 30]) false) (c16_dense_rep (-1)) (c16_dense_rep 2) = true /\
+  c16_dense_rep (-1) = 18446744073709551615 /\
+  c16_o_index (c16_legacy_ops (c16_dense_prims [10; 20; 30]) true) (c16_dense_rep (-1)) 3 = Some 30.
+Proof. vm_compute. repeat split; reflexivity. Qed.
+(* unsigned char range 250..255 with one-before-begin: the hypotheses of C16_integral_range_iterator hold *)
+Example C16_ex_ir_hyp :
+  let t := {| c16_bits := 8; c16_signed := false |} in
+  0 < c16_bits t /\ -1 <= 0 <= 5 /\ c16_tmin t <= 250 + -1 /\ 250 + 5 <= c16_tmax t /\ 5 - -1 < 2 ^ (c16_bits t - 1).
+Proof. vm_compute. repeat split; intros; discriminate. Qed.
+Example C16_ex_irange : c16_irange_elems {| c16_bits := 16; c16_signed := true |} true 10 32765 32767 = C16Ok [Some 32765; Some 32766].
+Proof. vm_compute. reflexivity. Qed.
+Example C16_ex_idx_inrange : c16_idx_inrange 0 5 0 [C16Inc; C16PlusEq 3; C16Dec; C16MinusEq 2] /\ c16_idx_total [C16Inc; C16PlusEq 3; C16Dec; C16MinusEq 2] = 1.
+Proof. vm_compute. repeat split; intros; discriminate. Qed.
+Example C16_ex_switch : c16_hy_switch_dynamic [1; 4; 2] 4 (fun i => 100 + i) (-1) = 104 /\ c16_hy_switch_static [5; 5; 7] 6 (fun i => 100 + i) (-1) = -1.
+Proof. vm_compute. split; reflexivity. Qed.
+Example C16_ex_accumulate : c16_hy_accumulate C16Static (fun a x => 7 * a + x) [4; 5; 6] 1 = 580.
+Proof. vm_compute. reflexivity. Qed.
